@@ -74,10 +74,29 @@ class BalancedMoveRule(BaseRule):
             return _TYPE_CONST_OF_MULTIPLY
 
         if isinstance(node.parent, AddExpression):
+            # Only a top-level addend of its side of the equation can be moved
+            if not self.is_top_level_addend(node.parent):
+                return None
             if isinstance(node, ConstantExpression) or get_term_ex(node) is not None:
                 return _TYPE_ADDITION
 
         return None
+
+    def is_top_level_addend(self, node: MathExpression) -> bool:
+        """Return True if the node is connected to its side of the equation only by
+        additions (or as the minuend of a subtraction), i.e. it is not nested inside a
+        product, quotient, power, negation, function or subtrahend."""
+        child = node
+        parent = node.parent
+        while parent is not None and not isinstance(parent, EqualExpression):
+            if isinstance(parent, SubtractExpression):
+                if parent.left is not child:
+                    return False
+            elif not isinstance(parent, AddExpression):
+                return False
+            child = parent
+            parent = parent.parent
+        return parent is not None
 
     def can_apply_to(self, node: MathExpression) -> bool:
         change_type = self.get_type(node)
